@@ -30,6 +30,11 @@ add("C05", "exploration",
     "trusts the canonical-form function (documented identifications) and sha256; universality only up to the enumerated bounds",
     "runtime monitoring: bulk hashing monitor + canonical-form collision oracle + cross-process determinism", "E2-values")
 
+add("C13", "exploration",
+    "Runtime monitor over Store.sync_paths: every spelling (positional prefix x keyword permutations x explicit/omitted defaults) of sampled and exhaustive bindings of generated functions is kept directly and as in-source literals under dds.eval; oracle = one signature per binding class, distinct classes distinct, within and across modes. Held on the calls observed.",
+    "binding classes computed with inspect.signature().bind + apply_defaults and the documented value identifications; positional-or-keyword parameters only",
+    "runtime monitoring: signature capture at Store.sync_paths + partition oracle over spellings", "E2-values")
+
 NOT_YET = {}
 
 
